@@ -13,11 +13,14 @@ import (
 
 	"github.com/hyperjumptech/grule-rule-engine/ast"
 	"github.com/hyperjumptech/grule-rule-engine/engine"
+	"github.com/hyperjumptech/grule-rule-engine/model"
 	verif "github.com/hyperjumptech/grule-rule-engine/zzverif"
 	"github.com/hyperjumptech/grule-rule-engine/zzkb"
 )
 
 type tbWorld struct {
+	json   map[string]interface{}
+	preJ   jsonSnap
 	tmpl   string
 	lib    *ast.KnowledgeLibrary
 	kb     *ast.KnowledgeBase
@@ -185,6 +188,11 @@ func tbSetup(tmpl string, shape int, permute bool) *tbWorld {
 	w.dc = ast.NewDataContext()
 	w.dc.Add("F", w.f)
 	w.dc.Add("N", smallInt("N"))
+	// a JSON fact (decoded tree with symbolic leaves), as DataContext.AddJSON would register it
+	w.json = newJSONTree("J")
+	if dcx, ok := w.dc.(*ast.DataContext); ok {
+		dcx.ObjectStore["J"] = model.VerifJSONNode(w.json, "J")
+	}
 	return w
 }
 
@@ -212,6 +220,25 @@ func tbTargets(re *ast.RuleEntry, may map[string]bool) {
 			}
 		}
 	}
+}
+
+func (w *tbWorld) frameJSON(pre jsonSnap, may map[string]bool) {
+	if w.json == nil {
+		return
+	}
+	post := snapJSON(w.json)
+	chk := func(path string, same bool) {
+		if !may[path] {
+			verif.Assert(w.L("C04:frame:unaddressed-JSON-member-unchanged:"+path), same)
+		}
+	}
+	chk("J.a", sameJSONLeaf(pre.a, post.a))
+	chk("J.flag", sameJSONLeaf(pre.flag, post.flag))
+	chk("J.s", sameJSONLeaf(pre.s, post.s))
+	chk("J.b.c", sameJSONLeaf(pre.bc, post.bc))
+	chk("J.arr[0]", sameJSONLeaf(pre.arr0, post.arr0))
+	chk("J.arr[1]", sameJSONLeaf(pre.arr1, post.arr1))
+	verif.Assert(w.L("C04:frame:no-JSON-member-appears-or-disappears"), pre.n == post.n && pre.nb == post.nb && pre.narr == post.narr)
 }
 
 func (w *tbWorld) frame(pre factSnap, n int64, may map[string]bool) {
@@ -302,6 +329,7 @@ func tbInvalidates(re *ast.RuleEntry) bool {
 
 // Template sets (the *programs* dimension is a curated family; see DESIGN §4).
 var tbSets = map[string][]string{
+	"json":    {"j_basic"},
 	"memo":    {"b_basic", "b_toplevel", "b_slice_sel", "b_slice", "b_map", "b_nested", "b_short", "b_shared", "b_forget", "b_ptrswap", "b_forgetcall", "b_chain", "b_failshared"},
 	"control": {"b_retract", "b_fail", "b_nilptr", "b_actfail"},
 	"values":  {"b_compound", "b_args", "b_float", "b_string"},
@@ -340,6 +368,7 @@ func VerifTierBRun(tmpl string, maxCycle int, flags int) {
 	}
 	eng := &engine.GruleEngine{MaxCycle: uint64(maxCycle), Listeners: []engine.GruleEngineListener{w}}
 	pre := snapFact(w.f, w.topN())
+	preJ := snapJSON(w.json)
 	var err error
 	panicked := false
 	func() {
@@ -365,6 +394,7 @@ func VerifTierBRun(tmpl string, maxCycle int, flags int) {
 		}
 	}
 	w.frame(pre, w.topN(), may)
+	w.frameJSON(preJ, may)
 	// C13: a shared side-effect-free call is evaluated at most once between invalidations
 	verif.Assert(w.L("C13:shared-call-evaluated-at-most-once-between-invalidations"), w.f.HeavyCalls <= 1+invalidations)
 	verif.Assert(w.L("C13:shared-accessor-evaluated-at-most-once-between-invalidations"), w.f.GetICalls <= 1+invalidations)
